@@ -283,15 +283,104 @@ func runC12(c *Ctx) {
 	{
 		keyP := value.Params[1]
 		nret := 0
+		p0 := c.Idx().proverFor(value)
+		// the link being looked at: the receiver, or - when the walk down the chain is a loop instead of a recursion -
+		// a loop variable that starts as the receiver and moves to the current link's parent (asserted to be a link)
+		cur := map[ssa.Value]bool{ssa.Value(value.Params[0]): true}
+		for changed := true; changed; {
+			changed = false
+			eachInstr(value, func(in ssa.Instruction) {
+				phi, isPhi := in.(*ssa.Phi)
+				if !isPhi || cur[phi] {
+					return
+				}
+				all := true
+				for _, e := range phi.Edges {
+					e = unwrap(e, true)
+					if cur[e] || e == ssa.Value(phi) {
+						continue
+					}
+					// the parent of a current link, asserted to be a link itself
+					okEdge := false
+					if ex, isEx := e.(*ssa.Extract); isEx && ex.Index == 0 {
+						e = ex.Tuple
+					}
+					if ta, isTA := e.(*ssa.TypeAssert); isTA {
+						if f, b := loadedField(ta.X); f == chain && (cur[b] || b == ssa.Value(phi)) {
+							okEdge = true
+						}
+					}
+					if !okEdge {
+						all = false
+					}
+				}
+				if all {
+					cur[phi] = true
+					changed = true
+				}
+			})
+		}
+		keyTestOn := func(cond ssa.Value) ssa.Value { // cond is <link>.key == key: returns the link
+			bo, isB := cond.(*ssa.BinOp)
+			if !isB || bo.Op != token.EQL {
+				return nil
+			}
+			fx, bx := loadedField(bo.X)
+			fy, by := loadedField(bo.Y)
+			switch {
+			case fx == key && bo.Y == ssa.Value(keyP):
+				return bx
+			case fy == key && bo.X == ssa.Value(keyP):
+				return by
+			}
+			return nil
+		}
+		// a loop may only move on from a link whose key it has compared and found different
+		for v := range cur {
+			phi, isPhi := v.(*ssa.Phi)
+			if !isPhi {
+				continue
+			}
+			for k, pred := range phi.Block().Preds {
+				if !phi.Block().Dominates(pred) {
+					continue
+				}
+				_ = k
+				tested := false
+				for _, cf := range expandConds(p0.edgeConds(pred, phi.Block())) {
+					if l := keyTestOn(cf.Cond); l != nil && !cf.Val && (l == ssa.Value(phi)) {
+						tested = true
+					}
+				}
+				r.Check("R12.3", FuncName(value), "the walk moves on from a link only after comparing that link's key", phi.Pos(), tested, "a link can be passed over without its key having been compared: a value set on the owner is not found")
+			}
+		}
 		for i, ret := range returnsOf(value) {
 			nret++
 			v := results(ret)[0]
 			ok, why := false, ""
 			switch {
 			case isNil(v):
-				ok = true
+				// "not found" only after the link at hand has been compared and found different
+				for _, cf := range expandConds(dominatingConds(ret.Block())) {
+					if l := keyTestOn(cf.Cond); l != nil && !cf.Val && cur[l] {
+						ok = true
+					}
+				}
+				why = "nil is returned without the current link's key having been compared"
 			default:
-				if f, b := loadedField(v); f == val && b == ssa.Value(value.Params[0]) {
+				if f, b := loadedField(v); f == val && cur[b] {
+					for _, cf := range expandConds(dominatingConds(ret.Block())) {
+						if l := keyTestOn(cf.Cond); l != nil && cf.Val && l == b {
+							ok = true
+						}
+					}
+					why = "the link's value is returned without a dominating key == comparison on that same link"
+				} else if call, isCall := v.(*ssa.Call); isCall && call.Call.IsInvoke() && call.Call.Method.Name() == "Value" {
+					f, b := loadedField(call.Call.Value)
+					ok = f == chain && cur[b] && call.Call.Args[0] == ssa.Value(keyP)
+					why = "delegation must be chain.Value(key)"
+				} else if f, b := loadedField(v); false && f == val && b == ssa.Value(value.Params[0]) {
 					// under v.key == key
 					for _, cf := range dominatingConds(ret.Block()) {
 						if bo, isB := cf.Cond.(*ssa.BinOp); isB && bo.Op == token.EQL && cf.Val {
